@@ -14,6 +14,7 @@ import (
 	"fmt"
 	"math/big"
 	"runtime"
+	"strings"
 	"sync/atomic"
 
 	"github.com/bnb-chain/tss-lib/v2/crypto"
@@ -197,10 +198,21 @@ func runInstance(r *core.Run, in *instance) {
 	var shares vss.Shares
 	var err error
 	ev(r, "create/"+tag)
+	secretArg, idsArg := new(big.Int).Set(secret), copyInts(ids)
 	if !guard(r, kc("create", "admissible"), baseRec, func() {
-		vs, shares, err = vss.Create(cv.ec, t, new(big.Int).Set(secret), copyInts(ids), core.NewDRBG("c15/create/"+tag))
+		vs, shares, err = vss.Create(cv.ec, t, secretArg, idsArg, core.NewDRBG("c15/create/"+tag))
 	}) {
 		return
+	}
+	// the caller's secret and ids are the caller's: Create must leave them as they were
+	argChanged := secretArg.Cmp(secret) != 0
+	for i := range ids {
+		if idsArg[i].Cmp(ids[i]) != 0 {
+			argChanged = true
+		}
+	}
+	if argChanged {
+		r.Violate(kc("purity", "create-modified-its-arguments"), "Create changed the secret or an id of its caller", baseRec)
 	}
 	if err != nil {
 		r.Violate(kc("create", "admissible-refused"), "Create refused admissible ids: "+err.Error(), baseRec)
@@ -238,6 +250,29 @@ func runInstance(r *core.Run, in *instance) {
 	}
 	if in.sample {
 		r.Sample(6, rec(map[string]interface{}{"what": "dealt instance (all clauses evaluated on it)"}))
+	}
+	// Verify / ReConstruct read the dealt shares and commitments: whatever is evaluated below must leave them
+	// as they are now
+	{
+		var snap []string
+		for _, sh := range shares {
+			snap = append(snap, sh.ID.String(), sh.Share.String(), fmt.Sprint(sh.Threshold))
+		}
+		for _, v := range vs {
+			snap = append(snap, v.X().String(), v.Y().String())
+		}
+		defer func() {
+			var now []string
+			for _, sh := range shares {
+				now = append(now, sh.ID.String(), sh.Share.String(), fmt.Sprint(sh.Threshold))
+			}
+			for _, v := range vs {
+				now = append(now, v.X().String(), v.Y().String())
+			}
+			if strings.Join(now, ",") != strings.Join(snap, ",") {
+				r.Violate(kc("purity", "verify-or-reconstruct-modified-its-inputs"), "the dealt shares / commitments changed while they were verified and recombined", baseRec)
+			}
+		}()
 	}
 
 	// --- V_0 = secret*G (reference arithmetic); every commitment is a point of the curve ---
